@@ -439,5 +439,325 @@ Section Wf.
       eapply rb_loop_wf in H; [exact H|exact Hl|exact Hsafe|apply opening_inv; exact Hw|lia|lia|lia|].
       intros c [<-|[]]. exact Hs.
     Qed.
+
+    (* ---------------------------------------------------------- next_ex_bracket_match / greedy_match *)
+    (** the bracket children collected so far: an ordered chain inside [base, mi], every bracket
+        non-empty and ending with a code token *)
+    Definition ChI (base mi len : N) (ch : list mr) : Prop :=
+      wf n (MR base mi None [] ch) = true /\
+      forall c, In c ch -> mr_start c < len /\ mr_start c < mr_end c /\ codeat (mr_end c - 1).
+
+    Lemma ChI_nil base mi len : base <= mi -> mi <= n -> ChI base mi len [].
+    Proof. intros H1 H2. split; [apply wf_from_span; assumption|intros c []]. Qed.
+
+    Lemma ChI_extend base mi mi' len ch : ChI base mi len ch -> mi <= mi' -> mi' <= n -> ChI base mi' len ch.
+    Proof. intros [H1 H2] Hle Hn'. split; [eapply wf_extend; eassumption|exact H2]. Qed.
+
+    Lemma ChI_in base mi len ch c : ChI base mi len ch -> In c ch -> base <= mr_start c /\ mr_end c <= mi.
+    Proof. intros [H1 _] Hc. exact (wf_children_start n _ c H1 Hc). Qed.
+
+    Lemma ChI_app base w mi len ch inner :
+      ChI base w len ch -> ChI w mi len inner -> ChI base mi len (ch ++ inner).
+    Proof.
+      intros [H1 H2] [H3 H4]. split.
+      - apply wf_node_elim in H3 as [Hc3 Hn3].
+        change (@nil (N * N)) with (@nil (N * N) ++ []).
+        eapply wf_cat_gen; [exact H1|exact Hc3|exact Hn3|lia].
+      - intros c Hc. apply in_app_or in Hc as [Hc|Hc]; auto.
+    Qed.
+
+    Lemma neb_loop_wf k : forall fl len idx base ms starts ends pers terms mi ch m o inner,
+      len <= n -> closers_safe_b g starts ends = true -> base <= mi -> mi <= len -> ChI base mi len ch ->
+      neb_loop g toks rec k fl len idx ms starts ends pers terms mi ch = ROk (m, o, inner) ->
+      exists mi', base <= mi' /\ mi' <= len /\ ChI base mi' len inner /\ (has_match m = true -> mi' <= mr_start m).
+    Proof.
+      induction k as [|k IH]; intros fl len idx base ms starts ends pers terms mi ch m o inner
+        Hl Hsafe Hb Hmi Hch H; cbn [neb_loop] in H; [discriminate|].
+      inv_bind H. destruct a as [m0 mt].
+      pose proof (next_match_spec g toks rec HrecB _ _ _ _ _ _ Hmi Ha) as (Hm1 & Hm2 & Hm3).
+      apply next_match_sound in Ha.
+      destruct (negb (has_match m0)) eqn:Ehm.
+      { inversion H; subst. apply negb_true_iff in Ehm. exists mi.
+        split; [lia|]. split; [lia|]. split; [exact Hch|]. congruence. }
+      apply negb_false_iff in Ehm.
+      destruct mt as [mt|]; [|discriminate].
+      destruct Ha as (j & J1 & J2 & J3 & J4 & J5).
+      destruct (mcontains g ms mt).
+      { inversion H; subst. exists mi. split; [lia|]. split; [lia|]. split; [exact Hch|]. intros _. lia. }
+      destruct (mcontains g ends mt).
+      { inversion H; subst. exists mi. split; [lia|]. split; [lia|]. split; [apply ChI_nil; lia|].
+        rewrite has_match_empty_at. discriminate. }
+      inv_bind H. rename a into b.
+      assert (Hqm : Q j len m0) by (eapply Hrec; [|exact Hl|exact J4]; lia).
+      pose proof (q_lt _ _ _ Hqm J2 Ehm) as Hsm.
+      apply resolve_bracket_wf in Ha; [|exact Hl|exact Hsafe|exact (q_wf _ _ _ Hqm)|lia|exact Hsm].
+      destruct Ha as (i & kk & ch' & pb & W1 & W2 & W3 & W4 & W5 & W6 & ->).
+      destruct (bracket_res_facts pb (mr_start m0) (mr_end m0) i kk ch') as (F1 & F2 & F3 & F4 & F5 & F6).
+      pose proof (bracket_res_wf pb _ _ _ kk _ W1 ltac:(lia)) as Hwb.
+      rewrite F2 in H.
+      eapply IH in H; [exact H|exact Hl|exact Hsafe|lia|lia|].
+      destruct Hch as [C1 C2]. split.
+      - rewrite <- F2. eapply wf_add_child; [exact C1|exact Hwb|rewrite F1; lia].
+      - intros c Hc. apply in_app_or in Hc as [Hc|[<-|[]]]; [auto|].
+        rewrite F1, F2. replace (i + 1 - 1) with i by lia. repeat split; auto. lia.
+    Qed.
+
+    Hypothesis Hbr : brackets_safe_b g = true.
+
+    Lemma next_ex_bracket_match_wf fl len idx ms terms m o inner :
+      idx <= len -> len <= n -> next_ex_bracket_match g toks rec fl len idx ms terms = ROk (m, o, inner) ->
+      exists mi', idx <= mi' /\ mi' <= len /\ ChI idx mi' len inner /\ (has_match m = true -> mi' <= mr_start m).
+    Proof.
+      unfold next_ex_bracket_match. intros Hi Hl H.
+      destruct (len <=? idx).
+      { inversion H; subst. exists idx. split; [lia|]. split; [lia|]. split; [apply ChI_nil; lia|].
+        rewrite has_match_empty_at. discriminate. }
+      inv_bind H. inv_bind H.
+      apply resolve_refs_all_some in Ha, Ha0.
+      assert (Hsafe : closers_safe_b g a a0 = true).
+      { unfold brackets_safe_b in Hbr. rewrite Ha, Ha0 in Hbr. exact Hbr. }
+      eapply neb_loop_wf in H; [exact H|exact Hl|exact Hsafe|lia|exact Hi|].
+      apply ChI_nil; lia.
+    Qed.
+
+    Lemma greedy_loop_wf k : forall fl len idx ms terms it nested w ch m,
+      idx <= w -> w <= len -> len <= n -> ChI idx w len ch ->
+      greedy_loop g toks rec k fl len idx ms terms it nested w ch = ROk m -> Q idx len m.
+    Proof.
+      induction k as [|k IH]; intros fl len idx ms terms it nested w ch m Hw Hl Hln Hch H;
+        cbn [greedy_loop] in H; [discriminate|].
+      inv_bind H. destruct a as [[matched mt] inner].
+      pose proof (next_ex_bracket_match_spec g toks rec HrecB _ _ _ _ _ _ _ _ Hl Ha) as (Hm1 & Hm2 & Hm3).
+      apply next_ex_bracket_match_wf in Ha; [|exact Hl|exact Hln].
+      destruct Ha as (mi' & M1 & M2 & M3 & M4).
+      set (ch2 := if nested then ch ++ inner else ch) in *.
+      assert (Hch2 : ChI idx mi' len ch2).
+      { unfold ch2. destruct nested; [eapply ChI_app; eassumption|eapply ChI_extend; [exact Hch|lia|lia]]. }
+      assert (Hlt : forall c, In c ch2 -> mr_start c < len) by (intros c Hc; apply (proj2 Hch2 c Hc)).
+      destruct (negb (has_match matched)) eqn:Ehm.
+      { inversion H; subst. apply Q_at; [|exact Hlt|reflexivity].
+        eapply wf_extend; [exact (proj1 Hch2)|lia|lia]. }
+      apply negb_false_iff in Ehm. specialize (M4 Ehm).
+      destruct mt as [mt|]; [|discriminate].
+      inv_bind H. destruct a as [[[raws tys] alpha]|]; [|discriminate].
+      inv_bind H. destruct (negb a).
+      - eapply IH in H; [exact H|lia|lia|exact Hln|].
+        eapply ChI_extend; [exact Hch2|lia|lia].
+      - destruct it.
+        { inversion H; subst. apply Q_at; [|intros c []|reflexivity]. apply wf_from_span; lia. }
+        inv_bind H. rename a0 into stop2.
+        pose proof (skip_back_spec toks _ _ _ _ Ha1) as [Hs1 Hs2].
+        destruct (idx =? stop2) eqn:E; b2p; inversion H; subst.
+        + apply Q_at; [|exact Hlt|reflexivity].
+          eapply wf_extend; [exact (proj1 Hch2)|lia|lia].
+        + apply Q_at; [|exact Hlt|reflexivity].
+          eapply wf_reend; [exact (proj1 Hch2)|lia|lia| |intros q []].
+          intros c Hc. destruct (proj2 Hch2 c Hc) as (C1 & C2 & C3).
+          destruct (ChI_in _ _ _ _ _ Hch2 Hc) as [C4 C5].
+          eapply skip_back_stop; [| |exact C3|exact Ha1]; lia.
+    Qed.
+
+    Lemma greedy_match_wf fl len idx ms terms it nested m :
+      idx <= len -> len <= n -> greedy_match g toks rec fl len idx ms terms it nested = ROk m -> Q idx len m.
+    Proof.
+      intros Hi Hl H. eapply greedy_loop_wf in H; [exact H|lia|exact Hi|exact Hl|apply ChI_nil; lia].
+    Qed.
+
+    (** what [trim_to_terminator] returns is the start index or lies right behind a code token *)
+    Lemma trim_to_terminator_code fl len idx ts terms j :
+      idx <= len -> trim_to_terminator g toks rec fl len idx ts terms = ROk j ->
+      j = idx \/ (idx < j /\ codeat (j - 1)).
+    Proof.
+      unfold trim_to_terminator. intros Hi H.
+      destruct (len <=? idx) eqn:E; b2p; [inversion H; subst; left; lia|].
+      inv_bind H. inv_bind H. destruct a0; [inversion H; subst; auto|].
+      inv_bind H. apply (greedy_match_spec g toks rec HrecB) in Ha1; [|exact Hi]. destruct Ha1 as (H1 & H2 & H3).
+      pose proof (skip_back_spec toks _ _ _ _ H) as [S1 S2].
+      destruct (N.eq_dec j idx) as [->|Hne]; [auto|]. right. split; [lia|].
+      eapply skip_back_code; [exact H|lia].
+    Qed.
+
+    (* ---------------------------------------------------------- Sequence *)
+    Lemma pmode_eqb_eq a b : pmode_eqb a b = true <-> a = b.
+    Proof. destruct a, b; cbn; split; intro H; try reflexivity; discriminate. Qed.
+
+    (** the part of [seq_elem] that handles an element which is not a meta *)
+    Definition seq_body (fl : nat) (d : seq_d) (len start_idx : N) (terms : list N) (st : sstate) (e : N)
+      : res step_r :=
+      let matched_idx := s_matched st in
+      let max_idx := s_max st in
+      idx <- (if sq_gaps d then skip_fwd toks len matched_idx max_idx else ROk matched_idx) ;;
+      if max_idx <=? idx then
+        o <- opt_of g e ;;
+        if o then ROk (Cont st)
+        else if pmode_eqb (sq_mode d) Strict || (matched_idx =? start_idx) then ROk (Ret (empty_at start_idx))
+        else ROk (Ret (MR start_idx matched_idx (Some (MKind (k_unparsable g)))
+                          (s_ins st ++ map (fun k => (matched_idx, k)) (s_buf st)) (s_ch st)))
+      else
+        (if len <? max_idx then RPanic PIndex else ROk tt) ;;;
+        em <- rec e idx max_idx terms ;;
+        if negb (has_match em) then
+          o <- opt_of g e ;;
+          if o then ROk (Cont st)
+          else if pmode_eqb (sq_mode d) Strict then ROk (Ret (empty_at start_idx))
+          else if pmode_eqb (sq_mode d) GreedyOnceStarted && (matched_idx =? start_idx) then ROk (Ret (empty_at start_idx))
+          else if matched_idx =? start_idx then ROk (Ret (unparsable g start_idx max_idx))
+          else
+            u <- skip_fwd toks len matched_idx max_idx ;;
+            ROk (Ret (MR start_idx max_idx None (s_ins st) (s_ch st ++ [unparsable g u max_idx])))
+        else
+          let ins := s_ins st ++ flush_metas g matched_idx idx (s_buf st) in
+          let matched_idx' := mr_end em in
+          newmax <- (if s_first st && pmode_eqb (sq_mode d) GreedyOnceStarted
+                     then trim_to_terminator g toks rec fl len matched_idx' (sq_terms d ++ terms) terms
+                     else ROk max_idx) ;;
+          let first' := if pmode_eqb (sq_mode d) GreedyOnceStarted then false else s_first st in
+          if is_some (mr_matched em)
+          then ROk (Cont (mkS matched_idx' newmax ins (s_ch st ++ [em]) first' []))
+          else ROk (Cont (mkS matched_idx' newmax (ins ++ mr_ins em) (s_ch st ++ mr_ch em) first' [])).
+
+    Lemma seq_elem_unfold fl d len si terms st e :
+      seq_elem g toks rec fl d len si terms st e =
+      (ie <- info g e ;;
+       match n_node ie with
+       | GCond k en => ROk (Cont (mkS (s_matched st) (s_max st) (s_ins st) (s_ch st) (s_first st)
+                                      (if en then s_buf st ++ [k] else s_buf st)))
+       | GMeta k => ROk (Cont (mkS (s_matched st) (s_max st) (s_ins st) (s_ch st) (s_first st) (s_buf st ++ [k])))
+       | _ => seq_body fl d len si terms st e
+       end).
+    Proof.
+      unfold seq_elem, seq_body. destruct (info g e) as [ie| | |]; cbn [bind]; [|reflexivity..].
+      destruct (n_node ie); reflexivity.
+    Qed.
+
+    Definition mode_T (d : seq_d) (si : N) (st : sstate) : Prop :=
+      sq_mode d = Strict \/ (s_max st <= s_matched st \/ codeat (s_max st - 1))
+      \/ (sq_mode d = GreedyOnceStarted /\ s_first st = true /\ s_matched st = si).
+
+    Record SI (d : seq_d) (si len : N) (st : sstate) : Prop := {
+      si_wf : wf n (MR si (s_matched st) None (s_ins st) (s_ch st)) = true;
+      si_ch : forall c, In c (s_ch st) -> mr_start c < len;
+      si_b : si <= s_matched st /\ s_matched st <= s_max st /\ s_max st <= len;
+      si_t : mode_T d si st }.
+
+    Lemma seq_body_wf fl d len si terms st e r :
+      len <= n -> SI d si len st -> seq_body fl d len si terms st e = ROk r ->
+      match r with Cont st' => SI d si len st' | Ret m => Q si len m end.
+    Proof.
+      unfold seq_body. intros Hl Hsi H. pose proof Hsi as [W C (I1 & I2 & I3) T].
+      inv_bind H. rename a into idx'.
+      assert (Hidx : s_matched st <= idx' /\ idx' <= s_max st)
+        by (destruct (sq_gaps d); [apply skip_fwd_spec in Ha; lia|inversion Ha; subst; lia]).
+      destruct (s_max st <=? idx') eqn:Emax; b2p.
+      - inv_bind H. destruct a; [inversion H; subst; exact Hsi|].
+        destruct (pmode_eqb (sq_mode d) Strict || (s_matched st =? si)) eqn:E1;
+          inversion H; subst; [apply Q_empty; lia|].
+        apply orb_false_iff in E1 as [_ E1]. b2p.
+        apply Q_at; [|exact C|reflexivity].
+        apply wf_name; [|left; lia].
+        apply wf_add_ins with (e := s_matched st); [exact W|lia|lia|exact Hn].
+      - inv_bind H. inv_bind H. rename a0 into em.
+        assert (Hqe : Q idx' (s_max st) em) by (eapply Hrec; [| |eassumption]; lia).
+        assert (Hbe : B idx' (s_max st) em) by (eapply HrecB; [|eassumption]; lia).
+        destruct Hbe as (E1 & E2 & E3).
+        destruct (negb (has_match em)) eqn:Ehm.
+        + inv_bind H. destruct a0; [inversion H; subst; exact Hsi|].
+          destruct (pmode_eqb (sq_mode d) Strict) eqn:Es; [inversion H; subst; apply Q_empty; lia|].
+          destruct (pmode_eqb (sq_mode d) GreedyOnceStarted && (s_matched st =? si)) eqn:Eg;
+            [inversion H; subst; apply Q_empty; lia|].
+          destruct (s_matched st =? si) eqn:Em; b2p.
+          * inversion H; subst. apply Q_at; [|intros c []|reflexivity].
+            apply wf_unparsable; lia.
+          * inv_bind H. inversion H; subst. rename a0 into u.
+            assert (Hu : s_matched st <= u /\ u < s_max st).
+            { pose proof (skip_fwd_spec toks _ _ _ _ Ha3) as [U1 U2]. split; [exact U1|].
+              destruct T as [T|[[T|T]|(_ & _ & T)]].
+              - apply pmode_eqb_eq in T. congruence.
+              - lia.
+              - assert (u <= s_max st - 1) by (eapply skip_fwd_stop; [|exact T|exact Ha3]; lia). lia.
+              - congruence. }
+            apply Q_at; [| |reflexivity].
+            -- exact (wf_add_child n _ _ _ _ (unparsable g u (s_max st)) W
+                        ltac:(apply wf_unparsable; lia) ltac:(cbn; lia)).
+            -- intros c Hc. apply in_app_or in Hc as [Hc|[<-|[]]]; [auto|cbn; lia].
+        + apply negb_false_iff in Ehm.
+          inv_bind H. rename a0 into newmax.
+          assert (Hnm : mr_end em <= newmax /\ newmax <= len)
+            by (destruct (s_first st && pmode_eqb (sq_mode d) GreedyOnceStarted);
+                [apply (trim_to_terminator_spec g toks rec HrecB) in Ha2; lia|inversion Ha2; subst; lia]).
+          unfold flush_metas in H.
+          set (at_ := if existsb (ival_neg g) (s_buf st) then idx' else s_matched st) in *.
+          assert (Hat : s_matched st <= at_ /\ at_ <= idx') by (unfold at_; destruct (existsb _ _); lia).
+          pose proof (wf_add_ins n _ _ _ _ at_ (s_buf st) W ltac:(lia) ltac:(lia) Hn) as W1.
+          pose proof (wf_cat n _ _ _ _ em W1 (q_wf _ _ _ Hqe) ltac:(lia)) as W2.
+          assert (Hfl : forall c, In c (s_ch st ++ flat_ch em) -> mr_start c < len).
+          { intros c Hc. apply in_app_or in Hc as [Hc|Hc]; [auto|].
+            assert (mr_start c < s_max st) by (eapply flat_ch_lt; [exact Hqe| |exact Ehm|exact Hc]; lia). lia. }
+          assert (HT : mode_T d si (mkS (mr_end em) newmax [] [] 
+                          (if pmode_eqb (sq_mode d) GreedyOnceStarted then false else s_first st) [])).
+          { unfold mode_T. cbn [s_max s_matched s_first].
+            destruct (s_first st && pmode_eqb (sq_mode d) GreedyOnceStarted) eqn:Ef.
+            - apply (trim_to_terminator_code) in Ha2; [|lia].
+              right. left. destruct Ha2 as [->|[_ Hc]]; [left; lia|right; exact Hc].
+            - inversion Ha2; subst.
+              destruct T as [T|[[T|T]|(T1 & T2 & T3)]]; auto.
+              + right. left. left. lia.
+              + rewrite T2 in Ef. apply pmode_eqb_eq in T1. rewrite T1 in Ef. discriminate. }
+          unfold flat_ins, flat_ch in W2, Hfl.
+          destruct (is_some (mr_matched em)); inversion H; subst; split; cbn [s_matched s_max s_ins s_ch s_first];
+            try (rewrite app_nil_r in W2); auto; lia.
+    Qed.
+
+    Lemma seq_elem_wf fl d len si terms st e r :
+      len <= n -> SI d si len st -> seq_elem g toks rec fl d len si terms st e = ROk r ->
+      match r with Cont st' => SI d si len st' | Ret m => Q si len m end.
+    Proof.
+      intros Hl Hsi H. rewrite seq_elem_unfold in H. inv_bind H.
+      destruct (n_node a); try (eapply seq_body_wf; eassumption);
+        inversion H; subst; destruct Hsi as [W C I T]; split; auto.
+    Qed.
+
+    Lemma seq_loop_wf fl d len si terms es : forall st r,
+      len <= n -> SI d si len st -> seq_loop g toks rec fl d len si terms st es = ROk r ->
+      match r with Cont st' => SI d si len st' | Ret m => Q si len m end.
+    Proof.
+      induction es as [|e es IH]; intros st r Hl Hsi H; cbn [seq_loop] in H.
+      - inversion H; subst. exact Hsi.
+      - inv_bind H. pose proof (seq_elem_wf _ _ _ _ _ _ _ _ Hl Hsi Ha) as Hs.
+        destruct a as [st'|m]; [eapply IH; eassumption|inversion H; subst; exact Hs].
+    Qed.
+
+    Lemma match_sequence_wf fl d len idx terms m :
+      idx <= len -> len <= n -> match_sequence g toks rec fl d len idx terms = ROk m ->
+      Q idx len m.
+    Proof.
+      unfold match_sequence. intros Hi Hl H.
+      inv_bind H. rename a into max0.
+      assert (Hmax : idx <= max0 /\ max0 <= len)
+        by (destruct (pmode_eqb (sq_mode d) Greedy); [apply (trim_to_terminator_spec g toks rec HrecB) in Ha; lia|inversion Ha; subst; lia]).
+      inv_bind H.
+      assert (Hsi : SI d idx len (mkS idx max0 [] [] true [])).
+      { split; cbn [s_matched s_max s_ins s_ch s_first]; [apply wf_nil; lia|intros c []|lia|].
+        unfold mode_T. cbn [s_matched s_max s_first].
+        destruct (sq_mode d) eqn:Em; cbn [pmode_eqb] in Ha; auto.
+        - apply trim_to_terminator_code in Ha; [|exact Hi].
+          right. left. destruct Ha as [->|[_ Hc]]; [left; lia|right; exact Hc]. }
+      pose proof (seq_loop_wf _ _ _ _ _ _ _ _ Hl Hsi Ha0) as Hs.
+      destruct a as [st|m'].
+      2:{ inversion H; subst. exact Hs. }
+      destruct Hs as [W C (S1 & S2 & S3) T].
+      pose proof (wf_add_ins n _ _ _ _ (s_matched st) (s_buf st) W ltac:(lia) ltac:(lia) Hn) as W1.
+      destruct (negb (pmode_eqb (sq_mode d) Strict) && (s_matched st <? s_max st)).
+      - inv_bind H. inv_bind H. rename a into i. rename a0 into stop.
+        pose proof (skip_fwd_spec toks _ _ _ _ Ha1) as [F1 F2].
+        pose proof (skip_back_spec toks _ _ _ _ Ha2) as [K1 K2].
+        destruct (i <? stop) eqn:E; b2p; inversion H; subst.
+        + apply Q_at; [| |reflexivity].
+          * exact (wf_add_child n _ _ _ _ (unparsable g i stop) W1
+                     ltac:(apply wf_unparsable; lia) ltac:(cbn; lia)).
+          * intros c Hc. apply in_app_or in Hc as [Hc|[<-|[]]]; [auto|cbn; lia].
+        + apply Q_at; auto.
+      - inversion H; subst. apply Q_at; auto.
+    Qed.
   End WithRec.
 End Wf.
